@@ -247,6 +247,41 @@ func c19prop(ev *evid.Rec) func(rt *rapid.T) {
 			for _, c := range cs {
 				c.TakeInbox()
 			}
+			// one more client does nothing but react: whenever it is told about a new post it asks for the board at once.  The
+			// board it is served holds that post.  (Not while the operator swaps boards or reloads: then posts may go.)
+			type c19fired struct {
+				id  uint32
+				tok string
+			}
+			var reactive *hlsim.Conn
+			var firedMu sync.Mutex
+			var fired []c19fired
+			if !trimDuringReads && !reloadsDuringRounds && !failedReload && !failedPost && rapid.Bool().Draw(rt, "reactiveReader") {
+				reactive = loginAs(rt, w, "10.19.0.99:1", "admin", "adminpw", "reactive")
+				reactive.TakeInbox()
+				rc := reactive
+				rid := uint32(500000)
+				rc.ReadHook = func(n int) {
+					b := rc.Tail(n)
+					if len(b) < 22 || b[1] != 0 || b[2] != 0 || b[3] != byte(hlref.TranNewMsg) {
+						return
+					}
+					i := bytes.Index(b, []byte("post-"))
+					if i < 0 {
+						return
+					}
+					j := i + 5
+					for j < len(b) && b[j] >= '0' && b[j] <= '9' {
+						j++
+					}
+					firedMu.Lock()
+					rid++
+					fired = append(fired, c19fired{rid, string(b[i:j]) + " "})
+					my := rid
+					firedMu.Unlock()
+					rc.SendAsync(hlref.Tran{Type: hlref.TranGetMsgs, ID: my}.Encode())
+				}
+			}
 			var acked []c19post
 			ti := 0
 			id := uint32(100)
@@ -364,6 +399,24 @@ func c19prop(ev *evid.Rec) func(rt *rapid.T) {
 					rg.Wait()
 				}
 				settle(0)
+				if reactive != nil {
+					got := map[uint32][]byte{}
+					for _, tr := range reactive.TakeInbox() {
+						if tr.IsReply == 1 {
+							d, _ := tr.Get(hlref.FData)
+							got[tr.ID] = d
+						}
+					}
+					firedMu.Lock()
+					fl := fired
+					fired = nil
+					firedMu.Unlock()
+					for _, f := range fl {
+						if d, ok := got[f.id]; !ok || !bytes.Contains(d, []byte(f.tok)) {
+							rt.Fatalf("round %d: a client that was told about the new post %q asked for the board at once and was served a board without it (answered: %v, %d bytes)", ri, strings.TrimSpace(f.tok), ok, len(d))
+						}
+					}
+				}
 				before := len(acked)
 				inbox := make([][]hlref.Tran, nclients)
 				for i, c := range cs {
